@@ -19,7 +19,7 @@ func init() {
 	})
 	register(&Rule{
 		ID:    "C04.fields",
-		Props: []string{"C04", "C08"},
+		Props: []string{"C04", "C08", "C16"},
 		Doc:   "wkbParser.parsePoint interpreted over the 4 coordinate types x NaN-ness: on every non-error path it consumes exactly Dimension(ctype) float64s (X, Y, Z iff 3D, M iff measured) — also for the NaN/NaN empty point, whose Z/M bytes must be consumed or the next member is misparsed; flipEndianessStride8 interpreted on a modelled 16-byte slice reverses each 8-byte group exactly",
 		Floor: 2,
 		Run:   runC04Fields,
